@@ -50,6 +50,11 @@ type harness struct {
 	flags map[string]bool
 	// probeSoon: a dropped constraint was just discarded; the next steps try to violate it
 	probeSoon int
+	// quiet: no query outside the open transactions (each one opens a read-only
+	// transaction, which re-loads the engine's cached schema) until a straddle is over
+	quiet bool
+	// cold: no reader and no plain commit since the last DDL commit (the engine has no cached schema)
+	cold bool
 }
 
 func (h *harness) logf(format string, args ...any) {
@@ -97,7 +102,24 @@ func (h *harness) foreign(st *txstate) []string {
 
 // ---- observation
 
+// warm: known finding K13g. The first transaction after a DDL commit hands its
+// private schema objects to the store's index mappers, so its own ALTER TABLE
+// ADD COLUMN keeps acting even if it is rolled back. While that is listed a
+// reader goes first, except inside a straddle (whose participants run no DDL
+// they do not commit).
+func (h *harness) warm() {
+	if !h.cold || h.quiet || !vk.Excluded(kfColdDDL) || len(h.committed.names) == 0 {
+		return
+	}
+	vk.CountExcluded(kfColdDDL)
+	h.c.Label("reader-before-first-tx-after-ddl-K13g")
+	h.runQuery("warm", nil, h.committed, &query{table: h.committed.names[0]})
+}
+
 func (h *harness) runQuery(who string, tx *sql.SQLTx, w *world, q *query) {
+	if tx == nil {
+		h.cold = false
+	}
 	d := w.tabs[q.table].def
 	text := q.sql(d)
 	got, err := sqlgen.QueryEngine(h.db.Eng, tx, text, nil)
@@ -123,6 +145,9 @@ func (h *harness) checkView(s *session, why string) {
 // audit compares the committed tables, read outside any transaction, with
 // the reference; viaIndexes also reads them through every secondary index.
 func (h *harness) audit(why string, viaIndexes bool) {
+	if h.quiet {
+		return // see straddle: no reader may re-load the schema now
+	}
 	for _, n := range h.committed.names {
 		t := h.committed.tabs[n]
 		h.runQuery("audit("+why+")", nil, h.committed, &query{table: n})
@@ -202,6 +227,7 @@ func (h *harness) observe() {
 // ---- transactions
 
 func (h *harness) begin(s *session, ro bool) {
+	h.warm()
 	var err error
 	if ro {
 		s.tx, err = h.db.Eng.NewTx(ctx, sql.DefaultTxOptions().WithReadOnly(true))
@@ -327,6 +353,7 @@ func (h *harness) execFailing(s *session, st *stmt) {
 }
 
 func (h *harness) noteCommit(by *session, ddl bool) {
+	h.cold = ddl
 	for _, o := range h.sess {
 		if o != by && o.st != nil {
 			o.foreignCommits++
@@ -394,6 +421,7 @@ func (h *harness) end(s *session, how string) {
 
 // autocommit runs one statement outside any transaction.
 func (h *harness) autocommit(s *session) {
+	h.warm()
 	st := newTxstate(h.committed, false)
 	if h.g.chance(5, "autoFails") {
 		f := h.g.failing(st, h.foreign(st))
@@ -460,6 +488,7 @@ func (h *harness) checkProbe(s *session, force bool) bool {
 
 // body draws the statements of a transaction block sent as one script.
 func (h *harness) script(s *session) {
+	h.warm()
 	st := newTxstate(h.committed, false)
 	n := h.g.intn(1, 6, "scriptLen")
 	parts := []string{"BEGIN TRANSACTION"}
@@ -551,7 +580,173 @@ func (h *harness) dropInFlight(s *session) bool {
 	return false
 }
 
+// ddlCommit: one session commits a transaction block that contains DDL (sent as one script).
+func (h *harness) ddlCommit(s *session) bool {
+	st := newTxstate(h.committed, false)
+	parts := []string{"BEGIN TRANSACTION"}
+	var kinds []string
+	for try := 0; try < 6 && len(kinds) == 0; try++ {
+		if x := h.g.ddl(st); x != nil {
+			parts = append(parts, x.sql)
+			kinds = append(kinds, x.label)
+		}
+	}
+	if len(kinds) == 0 {
+		return false
+	}
+	for i, n := 0, h.g.intn(0, 2, "ddlTxDML"); i < n; i++ {
+		if x := h.g.dml(st); x != nil {
+			parts = append(parts, x.sql)
+		}
+	}
+	parts = append(parts, "COMMIT")
+	text := strings.Join(parts, "; ")
+	ntx, ctxs, err := h.db.Eng.Exec(ctx, nil, text, nil)
+	h.logf("s%d(script): %s => %v", s.id, text, err)
+	if err != nil || ntx != nil || len(ctxs) != 1 {
+		h.failf("s%d(script): err=%v open=%v committed=%d: %s", s.id, err, ntx != nil, len(ctxs), text)
+	}
+	h.checkCounters(fmt.Sprintf("s%d(script)", s.id), ctxs[0], st)
+	h.committed.apply(st)
+	h.c.Label("straddled-ddl-" + kinds[0])
+	h.noteCommit(nil, true) // the script is a transaction of its own, also for an open transaction of s
+	return true
+}
+
+// straddle: a read-write transaction that only reads (the holder) stays open
+// across a DDL transaction another session commits, and ends right after it,
+// with no reader in between; then fresh readers must find exactly the
+// committed tables, columns and rows. Variant: the holder begins after a
+// first DDL commit nobody has read since.
+func (h *harness) straddle() bool {
+	var cands []*session
+	for _, s := range h.sess {
+		if s.st == nil || (!s.st.ro && !s.st.hasWrites()) {
+			cands = append(cands, s)
+		}
+	}
+	if len(cands) == 0 {
+		return false
+	}
+	holder := cands[h.g.intn(0, len(cands)-1, "holder")]
+	other := h.sess[h.g.intn(0, len(h.sess)-1, "ddlSession")]
+	if other == holder {
+		other = &session{id: 0} // one more client, only used for the DDL transaction
+	}
+	h.quiet = true
+	defer func() { h.quiet = false }()
+	if holder.st == nil {
+		if h.g.chance(2, "ddlBeforeHolder") && h.ddlCommit(other) {
+			h.c.Label("straddle-holder-begins-after-unread-ddl-commit")
+		}
+		h.begin(holder, false)
+	} else {
+		h.c.Label("straddle-holder-already-open")
+	}
+	if h.g.chance(2, "holderReads") {
+		if q := h.g.query(holder.st); q != nil {
+			h.inTxQuery(holder, q)
+		}
+	}
+	if !h.ddlCommit(other) {
+		return true
+	}
+	how := rapid.SampledFrom([]string{"commit", "commit", "commit", "rollback", "abandon"}).Draw(h.rt, "holderEnd")
+	h.end(holder, how)
+	h.c.Label("straddle-holder-" + how)
+	h.flag("holder-straddled-ddl-commit")
+	h.quiet = false
+	h.audit("after straddle", true)
+	return true
+}
+
+// ddlRace: two overlapping read-write transactions change the schema of the
+// same table. One creates an index on a column (or writes rows of the table),
+// the other one, a complete BEGIN; ALTER TABLE .. DROP COLUMN; COMMIT, commits
+// first. The first one then commits: either it is refused (read conflict) or
+// the audited state must be the reference's, in which an index on a dropped
+// column cannot work.
+func (h *harness) ddlRace() bool {
+	var idle []*session
+	for _, s := range h.sess {
+		if s.st == nil {
+			idle = append(idle, s)
+		}
+	}
+	type target struct {
+		t *tstate
+		c *sqlgen.Column
+	}
+	var targets []target
+	for _, n := range h.committed.names {
+		t := h.committed.tabs[n]
+		if len(t.def.idx) >= 2 || len(t.def.cols) <= len(t.def.pk)+1 {
+			continue
+		}
+		for _, c := range t.def.cols {
+			if !t.def.isPK(c.Name) && !t.def.indexed(c.Name) && !isChecked(c) && !c.NotNull {
+				targets = append(targets, target{t, c})
+			}
+		}
+	}
+	if len(idle) == 0 || len(targets) == 0 {
+		return false
+	}
+	a := idle[h.g.intn(0, len(idle)-1, "raceSession")]
+	tg := targets[h.g.intn(0, len(targets)-1, "raceColumn")]
+	name, col := tg.t.def.name, tg.c.Name
+	h.begin(a, false)
+	h.quiet = true
+	defer func() { h.quiet = false }()
+	if h.g.chance(3, "raceDML") {
+		// plain DML of the table instead of DDL: equivalent to running before the DROP COLUMN
+		for i := 0; i < 3; i++ {
+			if d := h.g.dml(a.st); d != nil {
+				h.exec(a, d)
+			}
+		}
+		h.c.Label("ddl-race-dml-vs-drop-column")
+	} else {
+		ix := sqlgen.Index{Cols: []string{col}}
+		t := a.st.view.tabs[name]
+		t.def = t.def.with(func(n *tdef) { n.idx = append(n.idx, ix) })
+		a.st.altered[name] = true
+		a.st.ddl = append(a.st.ddl, ddlop{kind: "create-index", table: name, ix: ix})
+		h.exec(a, &stmt{sql: ix.CreateSQL(name), label: "create-index", wrote: true})
+		h.c.Label("ddl-race-create-index-vs-drop-column")
+	}
+	// the other session: drops the column and commits
+	st := newTxstate(h.committed, false)
+	dt := st.view.tabs[name]
+	dt.def = dt.def.with(func(n *tdef) { n.dropCol(col) })
+	st.altered[name] = true
+	st.ddl = append(st.ddl, ddlop{kind: "drop-column", table: name, name: col})
+	text := fmt.Sprintf("BEGIN TRANSACTION; ALTER TABLE %s DROP COLUMN %s; COMMIT", name, col)
+	ntx, ctxs, err := h.db.Eng.Exec(ctx, nil, text, nil)
+	h.logf("s0(script): %s => %v", text, err)
+	if err != nil || ntx != nil || len(ctxs) != 1 {
+		h.failf("s0(script): err=%v open=%v committed=%d: %s", err, ntx != nil, len(ctxs), text)
+	}
+	h.committed.apply(st)
+	h.noteCommit(nil, true)
+	before := len(h.committed.tabs[name].def.idx)
+	h.end(a, "commit")
+	if len(h.committed.tabs[name].def.idx) > before {
+		h.c.Label("ddl-race-both-committed")
+	}
+	h.flag("ddl-race")
+	h.quiet = false
+	h.audit("after ddl race", true)
+	return true
+}
+
 func (h *harness) step() {
+	if h.g.chance(10, "straddle") && h.straddle() {
+		return
+	}
+	if h.g.chance(12, "ddlRace") && h.ddlRace() {
+		return
+	}
 	s := h.sess[h.g.intn(0, len(h.sess)-1, "session")]
 	if h.dropInFlight(s) && h.g.chance(2, "probeCheck") {
 		// the constraint must still hold for everybody else
@@ -690,6 +885,7 @@ func (h *harness) setup() {
 		}
 		h.logf("setup: %s", text)
 		h.committed.add(d)
+		h.cold = true
 	}
 	for i, n := 0, h.g.intn(0, 4, "setupStmts"); i < n; i++ {
 		st := newTxstate(h.committed, false)
@@ -753,7 +949,7 @@ func TestTxPrograms(t *testing.T) {
 		c.Label(fmt.Sprintf("sessions-%d", ns))
 		for l := range h.flags {
 			if strings.HasPrefix(l, "writes-discarded-by-") || l == "rolled-back-to-savepoint-after-write" || l == "failed-query-mid-transaction" ||
-				strings.HasSuffix(l, "-during-open-writer") || l == "read-after-foreign-commit" {
+				strings.HasSuffix(l, "-during-open-writer") || l == "read-after-foreign-commit" || l == "holder-straddled-ddl-commit" || l == "ddl-race" {
 				c.NonTrivial()
 			}
 		}
